@@ -6,8 +6,10 @@ case, non-ASCII digits/numbers/symbols, invalid byte).  The module transcribes t
 keyword/path/text tokenizers at BYTE level, with size limits, partial indexing, case folding) and the query side
 (SeqQL lexer for every literal style, parseSeqQLKeyword / parseSeqQLText, term matching) and states, independently
 of both, which own-content queries the property demands to succeed.  TLC
-  (a) decides at class level OwnContentFindsIt, NoUnproducibleToken, RenderLexRoundTrip, LowerShortcutSound for
-      every state of the scope (exhaustive small scopes + seeded -simulate for values of 4-5 characters), and
+  (a) decides at class level OwnContentFindsIt, NoUnproducibleToken, RenderLexRoundTrip, LowerShortcutSound and
+      DeviationIsExact (the one place where the transcribed implementation misses a demanded hit: a rune cut by partial
+      indexing in a case-sensitive keyword/path token) for every state of the scope (exhaustive small scopes + seeded
+      -simulate for values of 3-5 characters), and
   (b) emits every state as a case; the Go driver `tokenize` picks concrete characters per class (seeded palette),
       takes the tokens from the REAL bulk.Ingestor, builds every query from the units TLC rendered, parses it with
       the REAL parser.ParseSeqQL and decides the match with the REAL pattern.Search; a sub-sample goes end to end
@@ -18,7 +20,7 @@ import vlib
 
 LEVEL = "model_checking"
 
-INVS = "OwnContentFindsIt, NoUnproducibleToken, RenderLexRoundTrip, LowerShortcutSound"
+INVS = "OwnContentFindsIt, NoUnproducibleToken, RenderLexRoundTrip, LowerShortcutSound, DeviationIsExact"
 
 
 def run(ctx):
@@ -27,20 +29,19 @@ def run(ctx):
     if quick:
         # (label, cfg, simulate traces per worker, sim workers, reps, e2e stride)
         plan = [("full2", "Tokenize_full2.cfg", 0, 0, 2, 40),
-                ("case3", "Tokenize_case3.cfg", 0, 0, 2, 60),
                 ("quote3", "Tokenize_quote3.cfg", 0, 0, 2, 20),
-                ("sim5", "Tokenize_sim5.cfg", 600, 8, 2, 10),
-                ("sim4", "Tokenize_sim4.cfg", 500, 8, 2, 10)]
+                ("sim", "Tokenize_sim.cfg", 900, 8, 2, 10)]
     else:
-        plan = [("full2", "Tokenize_full2.cfg", 0, 0, 4, 10),
+        plan = [("named2", "Tokenize_named2.cfg", 0, 0, 0, 0),      # the four invariants by name, no emission
+                ("full2", "Tokenize_full2.cfg", 0, 0, 4, 10),
+                ("case3", "Tokenize_case3.cfg", 0, 0, 3, 60),
+                ("quote3", "Tokenize_quote3.cfg", 0, 0, 3, 20),
                 ("full3a", "Tokenize_full3a.cfg", 0, 0, 2, 200),
                 ("full3b", "Tokenize_full3b.cfg", 0, 0, 2, 200),
                 ("full3m", "Tokenize_full3m.cfg", 0, 0, 2, 200),
                 ("case4", "Tokenize_case4.cfg", 0, 0, 2, 200),
                 ("quote4", "Tokenize_quote4.cfg", 0, 0, 2, 50),
-                ("sim5", "Tokenize_sim5.cfg", 12000, 12, 3, 40),
-                ("sim4", "Tokenize_sim4.cfg", 6000, 12, 3, 40),
-                ("sim3", "Tokenize_sim3.cfg", 3000, 12, 3, 40)]
+                ("sim", "Tokenize_sim.cfg", 20000, 12, 3, 40)]
     tot = {"cases": 0, "evals": 0, "nontrivial": 0}
     extra = {"tokdiff": 0, "exempt_probes": 0, "exempt_found": 0, "e2e_docs": 0, "e2e_queries": 0, "styles": {}}
     table_path = os.path.join(ctx.scratch, "tokenize-table.json")
@@ -49,12 +50,16 @@ def run(ctx):
         kw = {}
         if sim:
             kw = {"simulate": "num=%d" % sim, "depth": 8, "workers": simw}
-        r = vlib.run_tlc(ctx, "Tokenize.tla", cfg, case_file=cf, timeout=3400, tags=("CASE", "TABLE"), **kw)
+        r = vlib.run_tlc(ctx, "Tokenize.tla", cfg, case_file=cf, timeout=3400, tags=("CASE", "TABLE", "FAILED"), **kw)
         if r.violated:
             # a class-level counterexample inside the specification: a modelling/design matter, never a verdict about
             # seq-db by itself (only the replay of real code below can raise a violation)
-            raise vlib.Infra("TLC: %s violated in Tokenize.tla (%s)" % (r.violated, cfg))
+            named = [c for (tg, c) in r.cases if tg == "FAILED"]
+            raise vlib.Infra("TLC: %s violated in Tokenize.tla (%s)" % (named[0] if named else r.violated, cfg))
         vlib.require_tlc_ok(r, "Tokenize " + cfg)
+        if reps == 0:
+            os.remove(cf) if os.path.exists(cf) else None
+            continue
         tables = [c for (tg, c) in r.cases if tg == "TABLE"]
         if not tables:
             raise vlib.Infra("Tokenize.tla did not print its class table")
@@ -71,6 +76,10 @@ def run(ctx):
             what = m.get("what", "")
             if what == "crash":
                 sig = "tokenize:crash"
+            elif m.get("gap"):
+                # deviation D1 of Tokenize.tla: partial indexing cuts a multi-byte rune of a case-sensitive keyword/path value
+                cfgd = m.get("cfg") or {}
+                sig = "tokenize:cutrune:%s:%s" % ("token" if what.startswith("token") else "query", cfgd.get("typ", "-"))
             elif what.startswith("e2e"):
                 sig = "tokenize:e2e:%s:%s:%s" % (m.get("kind"), m.get("style"), m.get("form"))
             else:
@@ -94,24 +103,27 @@ def run(ctx):
     ctx.cov["e2e_documents"] = extra["e2e_docs"]
     ctx.cov["e2e_queries"] = extra["e2e_queries"]
     ctx.cov["model_vs_real_token_list_disagreements"] = extra["tokdiff"]
-    ctx.cov["exempt_probes"] = extra["exempt_probes"]
-    ctx.cov["exempt_probes_found_anyway"] = extra["exempt_found"]
+    # probes the property does not demand (invalid byte in a case-sensitive keyword/path token; empty text value): counted only
+    ctx.cov["undemanded_probe_queries"] = extra["exempt_probes"]
+    ctx.cov["undemanded_probe_queries_that_found_the_document"] = extra["exempt_found"]
     ctx.cov["rule"] = (
         "one case per TLC state (value as class sequence, mapping shape flat/object member/multi-type, type keyword/text/path/exists, "
         "case-sensitive on/off, MaxTokenSize and per-field size at EVERY byte position 1..len and unlimited, partial indexing on/off). "
-        "Exhaustive: all sequences of <= 2 of the 20 classes in every shape; length 3 over the case/width alphabet {lo,up,sl,nu,d2,d3,iv} "
-        "and the quoting alphabet {lo,st,sp,dd,dq,sq,bt,bs}" + ("" if quick else "; thorough: all length-3 sequences over 20 classes "
-        "(flat with every limit; object/multi), length 4 over the two sub-alphabets") + "; seeded -simulate: random values of length "
-        "4 and 5 over all classes with a random configuration incl. word limit x field limit. Each case is instantiated with `reps` "
+        "Exhaustive: all sequences of <= 2 of the 20 classes in every shape; length 3 over the quoting alphabet {lo,st,sp,dd,dq,sq,bt,bs}"
+        + ("" if quick else "; thorough: length 3 over the case/width alphabet {lo,up,sl,nu,d2,d3,iv}, all length-3 sequences over 20 "
+        "classes (flat with every limit; object/multi), length 4 over the two sub-alphabets") + "; seeded -simulate: random values of length "
+        "3, 4 and 5 over all classes with a random configuration incl. word limit x field limit. Each case is instantiated with `reps` "
         "seeded palette strings; every probe is asked in every admissible style (double/single/back-quoted, bare, U+FFFD-substituted). "
+        "TLC checks the four invariants in one pass per state (CheckAndEmit; by name in Tokenize_named2.cfg, thorough tier). "
         "evaluations = real ParseSeqQL+pattern.Search runs; non-trivial = case with more demanded content queries than existence queries; "
         "every k-th case also runs through a real store (e2e_documents, each query on the active and the sealed fraction).")
     ctx.assumptions += [
         "character level is sampled: each class is represented by 1-26 palette characters drawn per seed (B4); the class table "
         "(width, word character, cased, lower-case width differs, legal unquoted) is checked against every palette member at start-up",
         "lower case = Unicode simple case mapping per rune (Go unicode.ToLower); the palette carries the lower forms as data",
-        "nothing is asserted for an invalid UTF-8 byte (incl. a rune cut by partial indexing) inside a case-sensitive keyword/path "
-        "token: no query can carry the raw byte (DESIGN 7/C11); the outcome of those probes is only counted (exempt_probes)",
+        "nothing is asserted for an invalid UTF-8 byte OF THE DOCUMENT inside a case-sensitive keyword/path token: no query can carry "
+        "the raw byte (DESIGN 7/C11); the outcome of those probes is only counted (undemanded_probe_queries). A rune of a valid "
+        "document cut by partial indexing is NOT exempt: the demand is met by the byte prefix or by the whole-rune prefix",
         "the empty text value and words longer than MaxTokenSize are not demanded to be findable (the property speaks of indexed words)",
         "unquoted style: the letters n/N are left out of the ASCII palette because a bare value `in` is the in(...) keyword",
         "escapes other than \\\\, \\<quote>, \\* and the lenient keep-the-backslash path of unquotePrefix are outside the model "
@@ -124,17 +136,18 @@ def run(ctx):
 
 
 def run_cases_x(ctx, drv, args, cf, label, extra):
-    """vlib.run_cases plus the driver's additional summary counters (read from a second pass over its output is not
-    possible, so the driver is asked to write them to a side file)."""
+    """vlib.run_cases plus the driver's additional summary counters (run_cases keeps only the standard ones, so the
+    driver appends its full summary to a side file)."""
     side = os.path.join(ctx.scratch, "tok-%s-summary.json" % label)
     if os.path.exists(side):
         os.remove(side)
     mism, summ, crashes = vlib.run_cases(ctx, drv, list(args) + ["-summary", side], cf, label=label, timeout=3400)
     if os.path.exists(side):
         with open(side) as fh:
-            s = json.load(fh)
-        for k in ("tokdiff", "exempt_probes", "exempt_found", "e2e_docs", "e2e_queries"):
-            extra[k] += int(s.get(k, 0))
-        for k, v in (s.get("styles") or {}).items():
-            extra["styles"][k] = extra["styles"].get(k, 0) + v
+            for ln in fh:          # one line per driver process (run_cases feeds the file in chunks)
+                s = json.loads(ln)
+                for k in ("tokdiff", "exempt_probes", "exempt_found", "e2e_docs", "e2e_queries"):
+                    extra[k] += int(s.get(k, 0))
+                for k, v in (s.get("styles") or {}).items():
+                    extra["styles"][k] = extra["styles"].get(k, 0) + v
     return mism, summ, crashes
